@@ -288,6 +288,49 @@ func init() {
 		}
 		return "allerr"
 	})
+	// rdfail y entry x cut v… : decode the first `cut` bytes of x's serialization into the previously used bitmap y (must fail),
+	// then keep USING y (the values v… are added, removed, flipped around) and finally discard it: a failed read must not leave
+	// y in a state where using it panics or reaches into another bitmap (the lines that follow look at the other bitmaps)
+	reg("rdfail", func(e *env, a []string) string {
+		need(a, 4)
+		y := e.b(a[0])
+		x := e.b(a[2])
+		bs, err := x.ToBytes()
+		if err != nil {
+			return "err:" + spaceless(err.Error())
+		}
+		cut := int(u64(a[3]))
+		if cut >= len(bs) {
+			panic(skipErr{"cut beyond the stream"})
+		}
+		data := append([]byte(nil), bs[:cut]...)
+		_, _, derr := decodeInto(e, y, a[1], data, 0)
+		delete(e.bm, a[0])
+		if derr == nil {
+			return "accepted"
+		}
+		res := func() (r string) {
+			defer func() {
+				if p := recover(); p != nil {
+					r = "panic-on-use:" + spaceless(fmt.Sprint(p))
+				}
+			}()
+			for _, t := range a[4:] {
+				v := u32(t)
+				y.Remove(v)
+				y.Add(v ^ 1)
+				y.RemoveRange(uint64(v), uint64(v)+3)
+				y.Flip(uint64(v), uint64(v)+2)
+				_ = y.GetCardinality()
+				_ = y.ToArray()
+			}
+			if verr := y.Validate(); verr != nil {
+				return "invalid-after-use:" + spaceless(verr.Error())
+			}
+			return "ok"
+		}()
+		return "err " + res
+	})
 	// wrfailall x : a writer failing at any offset below the serialized size makes WriteTo report an error
 	reg("wrfailall", func(e *env, a []string) string {
 		need(a, 1)
